@@ -373,3 +373,64 @@ Proof.
   { unfold no_trail_blank. rewrite rev_app_distr. reflexivity. }
   now rewrite A, B, C, D.
 Qed.
+
+(* ---------- directory_deps of a step: every distinct output directory other than the build directory gets exactly one
+   sentinel, whatever the other output directories of the step are called (in particular a directory whose name is a
+   character-wise prefix of the name of a sibling) ---------- *)
+Lemma str_mem_In x l : str_mem x l = true <-> In x l.
+Proof.
+  unfold str_mem. rewrite existsb_exists. split.
+  - intros [y [Hy E]]. apply str_eqb_eq in E. now subst.
+  - intros H. exists x. split; [assumption|apply str_eqb_refl].
+Qed.
+
+Lemma uniq_strs_In x : forall l seen, In x (uniq_strs seen l) <-> In x l /\ ~ In x seen.
+Proof.
+  induction l as [|y l IH]; intros seen; cbn [uniq_strs].
+  - cbn. tauto.
+  - destruct (str_mem y seen) eqn:E.
+    + apply str_mem_In in E. rewrite IH. cbn [In]. split; [tauto|].
+      intros [[->|H] Hn]; [contradiction|tauto].
+    + assert (Hy : ~ In y seen) by (intros H; apply str_mem_In in H; congruence).
+      cbn [In]. rewrite IH. cbn [In]. split.
+      * intros [->|[H Hn]]; [tauto|]. split; [tauto|]. intros H2. apply Hn. now right.
+      * intros [[->|H] Hn]; [now left|]. destruct (str_eqb y x) eqn:Eq.
+        { apply str_eqb_eq in Eq. now left. }
+        right. split; [assumption|]. intros [->|H2]; [now rewrite str_eqb_refl in Eq|contradiction].
+Qed.
+
+Lemma uniq_strs_NoDup : forall l seen, NoDup (uniq_strs seen l).
+Proof.
+  induction l as [|y l IH]; intros seen; cbn [uniq_strs]; [constructor|].
+  destruct (str_mem y seen); [apply IH|]. constructor; [|apply IH].
+  rewrite uniq_strs_In. intros [_ H]. apply H. now left.
+Qed.
+
+Lemma sentinel_of_inj a b : sentinel_of a = sentinel_of b -> a = b.
+Proof. unfold sentinel_of. apply app_inv_tail. Qed.
+
+Lemma NoDup_filter_keep {T} (f : T -> bool) l : NoDup l -> NoDup (filter f l).
+Proof.
+  induction 1 as [|x l Hx Hl IH]; cbn [filter]; [constructor|].
+  destruct (f x); [|assumption]. constructor; [|assumption]. rewrite filter_In. tauto.
+Qed.
+
+Lemma NoDup_map_injective {A B} (f : A -> B) l : (forall a b, f a = f b -> a = b) -> NoDup l -> NoDup (map f l).
+Proof.
+  intros Hf. induction 1 as [|x l Hx Hl IH]; cbn [map]; [constructor|].
+  constructor; [|assumption]. rewrite in_map_iff. intros [y [E Hy]]. apply Hf in E. now subst.
+Qed.
+
+Theorem directory_deps_exact dirs :
+  (forall s, In s (directory_deps dirs) <-> exists d, In d dirs /\ d <> [] /\ s = sentinel_of d) /\
+  NoDup (directory_deps dirs).
+Proof.
+  unfold directory_deps. split.
+  - intros s. rewrite in_map_iff. split.
+    + intros [d [<- H]]. apply filter_In in H as [H1 H2]. apply uniq_strs_In in H1 as [H1 _].
+      exists d. repeat split; [assumption|]. now destruct d.
+    + intros [d [H1 [H2 ->]]]. exists d. split; [reflexivity|]. apply filter_In. split.
+      * apply uniq_strs_In. split; [assumption|intros []].
+      * now destruct d.
+  - apply NoDup_map_injective; [exact sentinel_of_inj|]. apply NoDup_filter_keep, uniq_strs_NoDup.
+Qed.
